@@ -16,6 +16,10 @@ SCENARIOS = {
     # free 3+1 data (not tied to a 4-metric) with a moving perfect fluid
     'fluid': dict(mode='free', matter='fluid', input_form='tensor', order=1),
     'fluid_comp': dict(mode='free', matter='fluid', input_form='components', order=1),
+    # zero sets of the fluid variables (safe_division divisors): vacuum regions with pressure, fluid at rest
+    'fluid_rho0zero': dict(mode='free', matter='fluid', input_form='tensor', order=1, fluid_zero=('rho0',)),
+    'fluid_atrest': dict(mode='free', matter='fluid', input_form='tensor', order=1, fluid_zero=('v',)),
+    'fluid_dust': dict(mode='free', matter='fluid', input_form='tensor', order=1, fluid_zero=('press', 'eps')),
     # free data, stress-energy supplied directly
     'freeT': dict(mode='free', matter='T', input_form='tensor', order=1),
     # only the shift component beta^y supplied (x, z default to 0)
